@@ -1,8 +1,9 @@
 """C05 - emitting then parsing returns the same events (error-class, state-machine and agreement clauses)."""
 import sys
 
+from sa import rules_r6 as R6
 from sa import report, partial as P, rules_read as RD, rules_emit as RE
-from sa import rules_extra as RX
+from sa import rules_extra as RX, rules_opts as RO
 from sa import rules_emitgrammar as REG
 
 
@@ -34,28 +35,31 @@ def run(ctx, repo):
         '(R-BREAKSET-AGREEMENT). NOT decided: character-for-character fidelity of the scalar writers (folding, indentation '
         'hints, width), %TAG/%YAML values, simple-key eligibility.')
     ctx.trust('CPython ast, re; sa.cfg; the three-valued constant evaluator of sa.charworld for character predicates')
-    RD.r_raise_class(ctx, repo, ['emitter'], rule_id='R-EMITTER-RAISE-CLASS', minimum=15,
+    ctx.call(RD.r_raise_class, repo, ['emitter'], rule_id='R-EMITTER-RAISE-CLASS', minimum=15,
                      want={'emitter': 'emitter.EmitterError'})
-    RE.r_state_exhaustive(ctx, repo)
-    P.r_partial_guarded(ctx, repo, ['emitter'], rule_id='R-PARTIAL-GUARDED(emitter)', indent_pairing_ok=True,
+    ctx.call(RE.r_state_exhaustive, repo)
+    ctx.call(P.r_partial_guarded, repo, ['emitter'], rule_id='R-PARTIAL-GUARDED(emitter)', indent_pairing_ok=True,
                         site_filter=emitter_sites)
     ctx.assume('A-EVENT-SHAPE: event objects carry well-typed payloads (implicit is a pair for scalars, tags a dict); the '
                'property quantifies over ill-formed event *sequences*, not ill-typed event objects')
-    RE.r_bytes_iter(ctx, repo)
-    RE.r_escape_inverse(ctx, repo)
-    RE.r_tagchar_inclusion(ctx, repo)
-    RE.r_plain_implies_implicit(ctx, repo)
-    RE.r_directive_after_open_ended(ctx, repo)
-    RE.r_tag_suffix_nonempty(ctx, repo)
-    RE.r_breakset_agreement(ctx, repo, ['emitter'], exceptions={('write_double_quoted', '\x85\u2028\u2029')})
+    ctx.call(RE.r_bytes_iter, repo)
+    ctx.call(RE.r_escape_inverse, repo)
+    ctx.call(RE.r_tagchar_inclusion, repo)
+    ctx.call(RE.r_plain_implies_implicit, repo)
+    ctx.call(RE.r_directive_after_open_ended, repo)
+    ctx.call(RE.r_tag_suffix_nonempty, repo)
+    ctx.call(RE.r_breakset_agreement, repo, ['emitter'], exceptions={('write_double_quoted', '\x85\u2028\u2029')})
     ctx.assume('write_double_quoted: the always-escape literal omits LF on purpose, LF is excluded by the printable-range test of the same condition')
-    RX.r_event_cache_reset(ctx, repo)
-    RX.r_block_hint_leading(ctx, repo)
-    RX.r_emitter_doc_reset(ctx, repo)
-    RX.r_escape_introducer(ctx, repo)
-    RX.r_fold_leading_space(ctx, repo)
+    ctx.call(RX.r_event_cache_reset, repo)
+    ctx.call(RX.r_block_hint_leading, repo)
+    ctx.call(RX.r_emitter_doc_reset, repo)
+    ctx.call(RX.r_escape_introducer, repo)
+    ctx.call(RX.r_fold_leading_space, repo)
 
-    REG.r_emitter_grammar(ctx, repo, max_len=8, slack=2 if ctx.tier == 'thorough' else 1)
+    ctx.call(REG.r_emitter_grammar, repo, max_len=8, slack=2 if ctx.tier == 'thorough' else 1)
+    ctx.call(R6.r_tag_directive_every_handle, repo)
+    ctx.call(RX.r_analyze_special, repo)
+    ctx.call(RO.r_option_normalised, repo)
 
 
 if __name__ == '__main__':
